@@ -21,14 +21,14 @@ from simnet_h2 import hx, hopt, Net
 SCHEMES = ["ws", "wss"]
 HOSTS = ["example.com", "192.0.2.7", "[2001:db8::1]"]
 PORTS = [None, 80, 443, 8080, 1, 65535]
-PATHS = ["", "/", "/a/b"]
+PATHS = ["", "/", "/a/b", "/a;p=1/b;q=2", "/app;jsessionid=X"]
 QUERIES = [None, "x=1&y"]
 O_HOST = [None, "override.example:99", ""]
 O_ORIGIN = ["<absent>", None, "https://o.example", ""]
 O_SUPPRESS = [False, True]
 O_SUBS = [None, [], ["chat"], ["chat", "superchat"]]
 O_COOKIE = [None, "a=1; b=2", ""]
-O_HEADER = [None, [], ["X-A: 1", "X-B: two words"], {"X-A": "1"}, {"X-A": "1", "X-N": None, "X-C": "c d"}, {}]
+O_HEADER = [None, [], ["X-A: 1", "X-B: two words"], {"X-A": "1"}, {"X-A": "1", "X-N": None, "X-C": "c d"}, {}, {"X-E": "", "X-B": "2"}, ["X-E: "]]
 O_CONN = [None, "Upgrade", "keep-alive, Upgrade", ""]
 O_JAR = [False, True]
 AXES = [SCHEMES, HOSTS, PORTS, PATHS, QUERIES, O_HOST, O_ORIGIN, O_SUPPRESS, O_SUBS, O_COOKIE, O_HEADER, O_CONN, O_JAR]
